@@ -288,6 +288,9 @@ func runC02(c *core.Check) {
 		c.Bad("anchor", "cl.compileForPhraseStmt", 0, "not found")
 	}
 
+	// ---------- (3b) for-in over a range expression: bounds evaluated once (rule shared with C04)
+	rangeBoundsOnce(c, prog)
+
 	// ---------- (4) append form of the send statement
 	if fd := prog.FuncDecl("./cl", "compileSendStmt"); fd != nil {
 		txt := nows(nodeText(fd.Body))
